@@ -143,6 +143,8 @@ class Gen:
                     extra = rng.choice([';height:0', ';height:0;overflow:hidden', ';width:0', ';clear:both'])
                     if rng.random() < 0.5:
                         out.append(f'<div style="float:{side};width:{rng.choice([30, 60])}px;height:0"></div>')
+                if rng.random() < 0.25:
+                    extra += f';height:{rng.choice([20, 40, 90])}px'
                 out.append(f'<div style="float:{side};width:{rng.choice([30, 50, 80])}px{extra}">{inner}</div>')
                 out.append(self.paragraph(kind))
             elif r < 0.96 and self.allow('positioned') and kind == 'flow':
@@ -180,9 +182,31 @@ class Gen:
             foot = '<tfoot><tr>' + ''.join(f'<td>{self.inline_text("rep", 1)}</td>' for _ in range(cols)) + '</tr></tfoot>'
         rows = []
         empty_table = self.adversarial and rng.random() < 0.25
+        spans = rng.random() < 0.35
+        carry = {}
+        if spans:
+            self.features.add('table-spans')
         for _ in range(rng.choice([1, 2, 4, 8, 16])):
             if empty_table:
                 cells = ''.join(f'<td style="width:{rng.choice([0, 0, 10])}px;padding:0"></td>' for _ in range(cols))
+            elif spans and cols >= 2:
+                # colspan / rowspan: a cell after a spanning one has a grid column different from its index
+                parts, col = [], 0
+                while col < cols:
+                    if carry.get(col, 0) > 0:
+                        carry[col] -= 1
+                        col += 1
+                        continue
+                    attrs, width = '', 1
+                    r = rng.random()
+                    if r < 0.25 and col + 1 < cols and carry.get(col + 1, 0) == 0:
+                        attrs, width = ' colspan="2"', 2
+                    elif r < 0.4:
+                        attrs = ' rowspan="2"'
+                        carry[col] = 1
+                    parts.append(f'<td{attrs}>{self.inline_text("flow", rng.choice([1, 3, 6]))}</td>')
+                    col += width
+                cells = ''.join(parts)
             else:
                 cells = ''.join(f'<td>{self.inline_text("flow", rng.choice([1, 2, 3]))}</td>' for _ in range(cols))
             rows.append(f'<tr>{cells}</tr>')
